@@ -476,7 +476,12 @@ func (h *cgH) observe(kind string) {
 		}
 	}
 	// (5) record the observation
+	// the estimated bandwidth is the window over the smoothed RTT (RFC 9002 7.7), computed here from the RTT statistics the
+	// simulation feeds, not taken from the sender (whose own figure is only used before the first RTT sample)
 	bw := float64(h.s.BandwidthEstimate()) / 8 // bytes per second
+	if srtt := h.rtt.SmoothedRTT(); srtt > 0 {
+		bw = float64(h.s.GetCongestionWindow()) / srtt.Seconds()
+	}
 	burst := float64(h.s.pacer.maxBurstSize())
 	idx := len(h.obsT)
 	h.obsT = append(h.obsT, int64(now))
